@@ -434,7 +434,16 @@ def weave(src, vspecs, vacuity=False, split=None, isolate=()):
         ms, me = mod_range(src, e['mod'])
         bs, be = ms, me
         if e['block'] != '-':
-            _, o, c = find_block(src, e['block'], ms, me)
+            try:
+                _, o, c = find_block(src, e['block'], ms, me)
+            except AnchorLost:
+                if e['kind'] == 'items':
+                    raise
+                # the impl block the contract was written for no longer exists (e.g. `impl From<..>` turned into
+                # `impl TryFrom<..>`): same treatment as a function that no longer exists
+                tn0 = block_type_name(e['block'])
+                lost_entries.append({'fn': '::'.join([p for p in [e['mod'], tn0, e['name']] if p]), 'props': _entry_props(e)})
+                continue
             bs, be = o + 1, c
         if e['kind'] == 'items':
             text, metas = _mk(e['lines'], None, 'items', [])
